@@ -6,6 +6,9 @@ package main
 
 import (
 	"bytes"
+	"strings"
+
+	"go.sia.tech/core/types"
 
 	"encoding/json"
 	"fmt"
@@ -26,13 +29,86 @@ type failure struct {
 	at           int
 }
 
-// runCase runs the plan and evaluates the monitors; returns observations and the first failure.
-func runCase(t *chaingen.Tree, plan []mgrsim.Op, final bool) ([]mgrsim.Obs, *failure) {
+// drive says how a history is driven besides its plan (mgrsim/ext.go): modes, whether the expiring-contract
+// override option is given, and which read call is the first after the unobserved re-run.
+type drive struct {
+	Modes []string
+	Order bool   // manager created WithExpiringContractOrder (entries for ids that are not in the tree)
+	First string // "" = no unobserved re-run
+}
+
+func driveOf(cs mgrsim.Case) drive {
+	d := drive{}
+	for _, m := range cs.Modes {
+		switch {
+		case m == "order-option":
+			d.Order = true
+		case strings.HasPrefix(m, "blind:"):
+			d.First = strings.TrimPrefix(m, "blind:")
+		default:
+			d.Modes = append(d.Modes, m)
+		}
+	}
+	return d
+}
+
+func newSim(t *chaingen.Tree, d drive) *mgrsim.Sim {
 	s := mgrsim.NewSim(t, nil)
+	if d.Order {
+		// a public option of the manager: an override table that prescribes, for every block of the tree that
+		// expires v1 contracts, the order a node that saw the chain linearly uses (plus keys that are not
+		// blocks of this tree) must not change the behaviour of the node
+		s.WithManagerOptions(chain.WithExpiringContractOrder(orderTable(t)))
+	}
+	if len(d.Modes) > 0 {
+		s.Enable(d.Modes...)
+	}
+	return s
+}
+
+var orderTables = map[*chaingen.Tree]map[types.BlockID][]types.FileContractID{}
+
+// orderTable replays every valid leaf's chain on a fresh linear node and reads the order of the expiring
+// contracts from the supplements that node stored.
+func orderTable(t *chaingen.Tree) map[types.BlockID][]types.FileContractID {
+	if tbl, ok := orderTables[t]; ok {
+		return tbl
+	}
+	tbl := map[types.BlockID][]types.FileContractID{}
+	for i := 0; i < 3; i++ {
+		tbl[types.BlockID{0xEE, byte(i)}] = []types.FileContractID{{1}, {2}}
+	}
+	for _, op := range mgrsim.FinalFlush(t) {
+		store, cm := t.Env.NewManager()
+		var path []types.Block
+		for _, id := range op.Nodes {
+			path = append(path, t.Nodes[id].Block)
+		}
+		if cm.AddBlocks(path) != nil {
+			continue
+		}
+		for _, id := range op.Nodes {
+			if _, bs, ok := store.Block(t.Nodes[id].ID); ok && bs != nil && len(bs.ExpiringFileContracts) > 0 {
+				var ids []types.FileContractID
+				for _, fce := range bs.ExpiringFileContracts {
+					ids = append(ids, fce.ID)
+				}
+				tbl[t.Nodes[id].ID] = ids
+			}
+		}
+	}
+	orderTables[t] = tbl
+	return tbl
+}
+
+// runCase runs the plan and evaluates the monitors; returns observations and the first failure.
+func runCase(t *chaingen.Tree, d drive, plan []mgrsim.Op, final bool) ([]mgrsim.Obs, *failure) {
+	s := newSim(t, d)
 	var prev mgrsim.Obs
 	s.Observe(&prev)
 	var obs []mgrsim.Obs
 	submitted := map[int]bool{0: true}
+	twinSeen := false
 	var fail *failure
 	report := func(i int, kind, format string, a ...any) {
 		if fail == nil {
@@ -43,21 +119,50 @@ func runCase(t *chaingen.Tree, plan []mgrsim.Op, final bool) ([]mgrsim.Obs, *fai
 	if final {
 		all = append(all, mgrsim.FinalFlush(t)...)
 	}
+	var planEnd mgrsim.Obs
+	var firstObserved string
+	var legal []mgrsim.Op // the plan as executed (see legalise)
+	atPlanEnd := func() {
+		planEnd = prev
+		if d.First != "" {
+			firstObserved = mgrsim.ReadAPI(s, d.First)
+		}
+	}
+	stopped := false
 	for i, op := range all {
+		if i == len(plan) {
+			atPlanEnd()
+		}
 		for _, id := range op.Nodes {
 			if t.Nodes[id].TwinOf == nil {
 				submitted[id] = true // a same-id twin does not count as a submission of the genuine block
+			} else {
+				twinSeen = true
 			}
 		}
+		op = legalise(t, op, prev)
+		if i < len(plan) {
+			legal = append(legal, op)
+		}
 		o := s.Do(op)
+		if o.Hung {
+			report(i, "c01-call-hangs", "%s (a reorg listener reads the manager from inside the notification: modes %v)", o.ErrText, d.Modes)
+			stopped = true
+			break
+		}
 		if i < len(plan) {
 			obs = append(obs, o)
 		}
 		checkStep(t, op, prev, o, submitted, func(kind, format string, a ...any) { report(i, kind, format, a...) })
+		checkExt(t, op, prev, o, twinSeen, func(kind, format string, a ...any) { report(i, kind, format, a...) })
 		prev = o
 		if o.Panic {
+			stopped = true
 			break
 		}
+	}
+	if len(all) == len(plan) && !stopped {
+		atPlanEnd()
 	}
 	if final && fail == nil {
 		// heaviest-known: after every valid branch was submitted whole, no valid block that the node could
@@ -70,7 +175,68 @@ func runCase(t *chaingen.Tree, plan []mgrsim.Op, final bool) ([]mgrsim.Obs, *fai
 			}
 		}
 	}
+	if fail == nil && d.First != "" && !stopped && len(obs) == len(plan) {
+		// class 1: the same plan on a fresh node with no read between the calls; the first read afterwards is
+		// d.First; what it returns and everything observed after it must be what the observed node serves
+		firstBlind, blind, bad := mgrsim.RunBlind(t, legal, d.Modes, d.First)
+		if bad != "" {
+			report(len(plan), "c01-unobserved-run-fails", "the plan run without any read between the calls: %s (with an observation after every call it ran through)", bad)
+		} else if firstBlind != firstObserved {
+			report(len(plan), "c01-first-read-after-unobserved-run-differs", "the plan run without any read between the calls, then %s as the very first read: it returns %.300q; on the node that was observed after every call the same read returns %.300q", d.First, firstBlind, firstObserved)
+		} else if why, same := mgrsim.SameState(planEnd, blind); !same {
+			report(len(plan), "c01-unobserved-run-differs", "the plan run without any read between the calls ends in another state than with an observation after every call: %s", why)
+		}
+	}
 	return obs, fail
+}
+
+// legalise turns an "addv-bad" of flavour 2 (a pre-validated segment whose parent the node does not know)
+// into flavour 1 (one state fewer than blocks) when the node happens to know the parent: only then is the
+// call outside the documented precondition whatever the history was.
+func legalise(t *chaingen.Tree, op mgrsim.Op, before mgrsim.Obs) mgrsim.Op {
+	if op.Kind == "addv-bad" && op.Height == 2 && len(op.Nodes) > 0 {
+		if p := t.Nodes[op.Nodes[0]].Parent; p == nil || known(before, p.Idx).State == 1 || known(before, p.Idx).State == 2 {
+			op.Height = 1
+		}
+	}
+	return op
+}
+
+// checkExt: monitors of the opt-in modes and operations (mgrsim/ext.go).
+func checkExt(t *chaingen.Tree, op mgrsim.Op, prev, o mgrsim.Obs, twinSeen bool, report func(kind, format string, a ...any)) {
+	if o.Panic || len(o.Best) == 0 || o.Best[0] < 0 {
+		return
+	}
+	// a concurrent reader sees the tip before the call or the tip after it, nothing else
+	for _, id := range o.Polled {
+		if id != prev.Best[0] && id != o.Best[0] {
+			report("c01-intermediate-tip-visible", "while %v ran (tip %d before, %d after) a concurrent reader was served tip %d (-2: an index that is no block of the tree)", op, prev.Best[0], o.Best[0], id)
+		}
+	}
+	for _, f := range o.ListenerFaults {
+		report("c01-reader-sees-inconsistent-state", "during %v: %s", op, f)
+	}
+	// the node keeps what it was given, not the caller's memory
+	if !twinSeen {
+		for _, k := range o.Known {
+			if k.Body && !k.Good {
+				report("c01-stored-body-not-the-submitted-block", "after %v the stored body of block %d differs from the block that was submitted (no same-id copy was ever submitted; the caller's slices are overwritten after each call)", op, k.ID)
+				break
+			}
+		}
+	}
+	if mgrsim.ModelNoOp(op) {
+		if op.Kind == "addv-bad" && !o.Err {
+			report("c01-illegal-prevalidated-batch-accepted", "%v (1: one state fewer than blocks, 2: parent unknown to the node) returned no error", op)
+		}
+		if why, same := mgrsim.SameState(prev, o); !same {
+			kind := "c01-reopen-changed-state"
+			if op.Kind == "addv-bad" {
+				kind = "c01-illegal-prevalidated-batch-changed-state"
+			}
+			report(kind, "%v changed what the node serves: %s", op, why)
+		}
+	}
 }
 
 func checkStep(t *chaingen.Tree, op mgrsim.Op, prev, o mgrsim.Obs, submitted map[int]bool, report func(kind, format string, a ...any)) {
@@ -297,9 +463,12 @@ func encFull(n *chaingen.Node) []byte {
 	return mgrsim.EncState(n.FullState)
 }
 
-func shrink(t *chaingen.Tree, plan []mgrsim.Op, kind string) []mgrsim.Op {
+func shrink(t *chaingen.Tree, d drive, plan []mgrsim.Op, kind string) []mgrsim.Op {
+	if kind == "c01-call-hangs" {
+		return plan // every attempt costs a hang timeout
+	}
 	fails := func(p []mgrsim.Op) bool {
-		_, f := runCase(t, p, kind == "c01-not-heaviest")
+		_, f := runCase(t, d, p, kind == "c01-not-heaviest")
 		return f != nil && f.kind == kind
 	}
 	for changed := true; changed; {
@@ -352,6 +521,23 @@ func describe(t *chaingen.Tree) []string {
 	return out
 }
 
+// hangs counts histories in which a call did not return; every further one would cost a hang timeout, so
+// after the first the listener modes are dropped for the rest of the run (the failure is already reported).
+var hangs int
+
+func afterHang(modes []string) []string {
+	if hangs == 0 {
+		return modes
+	}
+	var out []string
+	for _, m := range modes {
+		if !strings.HasPrefix(m, "listener-") {
+			out = append(out, m)
+		}
+	}
+	return out
+}
+
 // safeTree regenerates the case's tree; the generator builds blocks with real chain.Manager
 // nodes, so a panic there ("mined block rejected", "replay failed") means a linear node refused a
 // valid block or chain: that is reported as a failure of the node, not as a harness crash.
@@ -371,7 +557,12 @@ func run(c *hx.Ctx) {
 	var cases []string
 	doCase := func(cs mgrsim.Case, toCoq bool) {
 		t := cs.Tree()
-		obs, f := runCase(t, cs.Plan, true)
+		cs.Modes = afterHang(cs.Modes)
+		d := driveOf(cs)
+		obs, f := runCase(t, d, cs.Plan, true)
+		if f != nil && f.kind == "c01-call-hangs" {
+			hangs++
+		}
 		reorg2, rejected := false, false
 		for i, o := range obs {
 			if o.Err {
@@ -383,13 +574,13 @@ func run(c *hx.Ctx) {
 				for _, id := range o.Best {
 					on[id] = true
 				}
-				d := 0
+				depth := 0
 				for _, id := range obs[i-1].Best {
 					if !on[id] {
-						d++
+						depth++
 					}
 				}
-				if d >= 2 {
+				if depth >= 2 {
 					reorg2 = true
 				}
 			}
@@ -412,6 +603,9 @@ func run(c *hx.Ctx) {
 			}
 		}
 		for _, k := range countAdoptions(t, cs.Plan, obs) {
+			res.Count(k)
+		}
+		for _, k := range countDims(t, cs, obs) {
 			res.Count(k)
 		}
 		res.CountN("calls", len(cs.Plan))
@@ -448,8 +642,11 @@ func run(c *hx.Ctx) {
 			}
 		}
 		if f != nil {
-			small := shrink(t, cs.Plan, f.kind)
-			_, f2 := runCase(t, small, f.kind == "c01-not-heaviest")
+			small := shrink(t, d, cs.Plan, f.kind)
+			_, f2 := runCase(t, d, small, f.kind == "c01-not-heaviest")
+			if f.kind == "c01-call-hangs" {
+				f2 = f
+			}
 			if f2 == nil {
 				f2, small = f, cs.Plan
 			}
@@ -458,7 +655,9 @@ func run(c *hx.Ctx) {
 			res.Fail(f2.kind, f2.detail, map[string]any{"case": scs, "tree": describe(t)})
 		}
 		if toCoq && len(obs) == len(cs.Plan) && !mgrsim.HasTwin(t, cs.Plan) {
-			cases = append(cases, mgrsim.CoqCase(t, cs.Plan, obs))
+			// reopen and out-of-precondition calls are no-ops of the model (checkExt demands that they change nothing)
+			mp, mo := mgrsim.ModelHistory(cs.Plan, obs)
+			cases = append(cases, mgrsim.CoqCase(t, mp, mo))
 		}
 		if len(res.Samples) < 2 {
 			var ops []string
@@ -510,9 +709,267 @@ func run(c *hx.Ctx) {
 			continue
 		}
 		cs.Plan = mgrsim.GenPlan(rng.New(cs.Seed^0x5bd1e995), t, i%8 == 7)
+		cs.Plan, cs.Modes = generalise(rng.New(cs.Seed^0x7f4a7c15), t, cs.Plan, i)
 		doCase(cs, true)
 	}
 	res.WriteCases("Run.Run_C01", cases)
+}
+
+// generalise adds, by case number (so that every regime meets every dimension), the dimensions of the
+// generalisation pass: how the node is driven (modes of mgrsim/ext.go, the override option, the unobserved
+// re-run with one read call first) and extra operations (reopen, empty / genesis / duplicate batches,
+// pre-validated batches outside the precondition, extreme prune heights).
+func generalise(r *rng.R, t *chaingen.Tree, plan []mgrsim.Op, i int) ([]mgrsim.Op, []string) {
+	var modes []string
+	k := i / 6 // i%6 is the regime
+	switch k % 4 {
+	case 1:
+		modes = append(modes, "scribble")
+	case 2:
+		modes = append(modes, "poll")
+	case 3:
+		modes = append(modes, "listener-reads")
+	}
+	if k%5 == 2 {
+		modes = append(modes, "order-option")
+	}
+	if i%2 == 0 {
+		modes = append(modes, "blind:"+mgrsim.ReadAPIs[(i/2)%len(mgrsim.ReadAPIs)])
+	}
+	insert := func(op mgrsim.Op) {
+		at := 1 + r.Intn(len(plan))
+		plan = append(plan[:at:at], append([]mgrsim.Op{op}, plan[at:]...)...)
+	}
+	n := len(t.Nodes)
+	if k%3 == 1 {
+		for j := 0; j < 1+r.Intn(2); j++ {
+			insert(mgrsim.Op{Kind: "reopen"})
+		}
+	}
+	if k%4 == 2 || k%4 == 0 && i%3 == 0 {
+		insert(mgrsim.Op{Kind: "add"})                   // empty batch
+		insert(mgrsim.Op{Kind: "add", Nodes: []int{0}}) // the genesis block itself
+		x := 1 + r.Intn(n-1)
+		insert(mgrsim.Op{Kind: "add", Nodes: []int{x, x}}) // the same block twice in one batch
+		p := t.Path(t.Nodes[1+r.Intn(n-1)])
+		var ids []int
+		for _, y := range p[r.Intn(len(p)):] {
+			ids = append(ids, y.Idx)
+		}
+		insert(mgrsim.Op{Kind: "add", Nodes: append(append([]int{0}, ids...), 0)}) // genesis first and last
+		// pre-validated batches outside the documented precondition
+		for _, flavour := range []uint64{1, 2} {
+			x := t.Nodes[1+r.Intn(n-1)]
+			p := t.Path(x)
+			from := r.Intn(len(p))
+			ok := x.ChainValid()
+			var seg []int
+			for _, y := range p[from:] {
+				if y.Block.V2 == nil || y.Height < t.Env.Net.HardforkV2.RequireHeight || y.TwinOf != nil {
+					ok = false
+				}
+				seg = append(seg, y.Idx)
+			}
+			if ok {
+				insert(mgrsim.Op{Kind: "addv-bad", Nodes: seg, Height: flavour})
+			}
+		}
+		for _, op := range plan {
+			if op.Kind == "prune" { // histories that prune at all also prune at the extremes
+				insert(mgrsim.Op{Kind: "prune", Height: 0})
+				insert(mgrsim.Op{Kind: "prune", Height: ^uint64(0)})
+				break
+			}
+		}
+	}
+	if i%2 == 0 {
+		// a stretch that the unobserved re-run performs without any read: a heavier chain that ends in a
+		// body-invalid block (the reorg applies its valid part, fails and is rolled back), directly followed by
+		// a prune of everything and a re-submission
+		for _, c := range t.Nodes {
+			if c.Parent != nil && c.TwinOf == nil && c.HdrOK && !c.BodyOK && c.Parent.ChainValid() && c.Parent.Parent != nil {
+				var ids []int
+				for _, y := range t.Path(c) {
+					ids = append(ids, y.Idx)
+				}
+				plan = append(plan, mgrsim.Op{Kind: "add", Nodes: ids}, mgrsim.Op{Kind: "prune", Height: ^uint64(0)}, mgrsim.Op{Kind: "add", Nodes: ids[:len(ids)-1]})
+				break
+			}
+		}
+	}
+	return plan, modes
+}
+
+// countDims: evidence that the dimensions of the generalisation pass are exercised (one key per occurrence).
+func countDims(t *chaingen.Tree, cs mgrsim.Case, obs []mgrsim.Obs) (keys []string) {
+	add := func(k string) { keys = append(keys, k) }
+	d := driveOf(cs)
+	for _, m := range d.Modes {
+		add("mode:" + m)
+	}
+	if d.Order {
+		add("mode:expiring-contract-order-option")
+		for i := 3; i < len(orderTable(t)); i++ {
+			add("mode:expiring-contract-order-option/blocks-with-a-prescribed-order")
+		}
+	}
+	if d.First != "" {
+		add("unobserved-re-run/first-read=" + d.First)
+	}
+	net := t.Env.Net
+	marks := []struct {
+		name string
+		h    uint64
+	}{{"v2-allow-height", net.HardforkV2.AllowHeight}, {"v2-require-height", net.HardforkV2.RequireHeight}, {"v2-final-cut-height", net.HardforkV2.FinalCutHeight}}
+	// tree shapes (class 8) and block shapes (class 6)
+	maxKids, leaves, depth := 0, 0, uint64(0)
+	for _, n := range t.Nodes {
+		if len(n.Children) > maxKids {
+			maxKids = len(n.Children)
+		}
+		if len(n.Children) == 0 {
+			leaves++
+		}
+		if n.Height > depth {
+			depth = n.Height
+		}
+		if len(n.Block.Transactions) > 0 && len(n.Block.V2Transactions()) > 0 {
+			add("blocks-mixing-v1-and-v2-transactions")
+		}
+	}
+	if maxKids >= 3 {
+		add("tree:hub(node-with>=3-children)")
+	}
+	if leaves >= 4 {
+		add("tree:>=4-leaves")
+	}
+	if depth >= 10 {
+		add("tree:depth>=10")
+	}
+	bucket := func(n int) string {
+		switch {
+		case n == 0:
+			return "0"
+		case n == 1:
+			return "1"
+		default:
+			return "2+"
+		}
+	}
+	s0 := mgrsim.NewSim(t, nil)
+	var prev mgrsim.Obs
+	s0.Observe(&prev)
+	for i, op := range cs.Plan {
+		if i >= len(obs) {
+			break
+		}
+		o := obs[i]
+		switch op.Kind {
+		case "reopen":
+			add("op:reopen")
+			if i+1 < len(cs.Plan) && len(cs.Plan[i+1].Nodes) > 0 && i+1 < len(obs) && !obs[i+1].Err && fmt.Sprint(obs[i+1].Best) != fmt.Sprint(o.Best) {
+				add("op:reopen/next-call-moves-the-tip")
+			}
+		case "addv-bad":
+			add(fmt.Sprintf("op:prevalidated-outside-precondition/%d", op.Height))
+		case "prune":
+			tip := uint64(len(prev.Best) - 1)
+			switch {
+			case op.Height == 0:
+				add("prune-height:0")
+			case op.Height == ^uint64(0):
+				add("prune-height:max-uint64")
+			case op.Height > tip+1:
+				add("prune-height:beyond-tip")
+			case op.Height == tip+1:
+				add("prune-height:tip+1")
+			case op.Height == tip:
+				add("prune-height:tip")
+			default:
+				add("prune-height:mid-chain")
+			}
+		case "add", "addv":
+			switch n := len(op.Nodes); {
+			case n == 0:
+				add("batch-size:0")
+			case n == 1:
+				add("batch-size:1")
+			case n < 5:
+				add("batch-size:2-4")
+			case n < 10:
+				add("batch-size:5-9")
+			default:
+				add("batch-size:10+")
+			}
+			seen := map[int]bool{}
+			onePath := true
+			for j, id := range op.Nodes {
+				if id == 0 {
+					add("op:batch-contains-genesis")
+				}
+				if seen[id] {
+					add("op:batch-contains-a-block-twice")
+				}
+				seen[id] = true
+				if j > 0 && id != 0 && op.Nodes[j-1] != 0 && (t.Nodes[id].Parent == nil || t.Nodes[id].Parent.Idx != op.Nodes[j-1]) {
+					onePath = false
+				}
+			}
+			if !onePath {
+				add("batch-is-not-one-chain(branches-mixed-or-out-of-order)")
+			}
+		}
+		add(fmt.Sprintf("reader:tips-seen-during-calls=%s", bucket(len(o.Polled))))
+		if o.Notified && len(d.Modes) > 0 && d.Modes[0] == "listener-reads" {
+			add("listener:notifications-that-read-the-manager")
+		}
+		if len(o.Best) == 0 || len(prev.Best) == 0 || o.Best[0] < 0 || prev.Best[0] < 0 || o.Panic {
+			break
+		}
+		// reorg geometry (classes 3 and 6)
+		if len(op.Nodes) > 0 && (op.Kind == "add" || op.Kind == "addv") {
+			on := map[int]bool{}
+			for _, id := range prev.Best {
+				on[id] = true
+			}
+			b := t.Nodes[op.Nodes[len(op.Nodes)-1]]
+			pt := t.Nodes[prev.Best[0]]
+			if b.TwinOf == nil && b.Parent != nil && chaingen.HdrChainOK(b) && b.State.SufficientlyHeavierThan(pt.State) {
+				f, applied, stillOK := b, 0, true
+				var leg []*chaingen.Node
+				for ; !on[f.Idx]; f = f.Parent {
+					leg = append(leg, f)
+				}
+				for j := len(leg) - 1; j >= 0; j-- {
+					if stillOK && leg[j].HdrOK && leg[j].BodyOK {
+						applied++
+					} else {
+						stillOK = false
+					}
+				}
+				reverted := int(pt.Height - f.Height)
+				across := func(prefix string) {
+					for _, m := range marks {
+						if f.Height < m.h && (pt.Height >= m.h || b.Height >= m.h) && m.h < 500 {
+							add(prefix + "-across:" + m.name)
+						}
+						if f.Height+1 == m.h && m.h < 500 {
+							add(prefix + "-with-first-block-at:" + m.name)
+						}
+					}
+				}
+				if o.Err && cleanBatch(t, op, prev) && !stillOK {
+					add(fmt.Sprintf("failed-reorg(reverted=%s,applied-before-the-invalid-block=%s)", bucket(reverted), bucket(applied)))
+					across("failed-reorg")
+				} else if !o.Err && o.Best[0] == b.Idx && reverted > 0 {
+					add(fmt.Sprintf("reorg(reverted=%s)", bucket(reverted)))
+					across("reorg")
+				}
+			}
+		}
+		prev = o
+	}
+	return
 }
 
 // countAdoptions classifies, for the evidence, the calls at which the per-call heaviest-known monitor had
